@@ -55,12 +55,14 @@ type Tape struct {
 	Edges     []uint32 `json:"edges,omitempty"`
 	Perms     []uint32 `json:"perms,omitempty"`
 	Clocks    []uint32 `json:"clocks,omitempty"`
+	Pools     []uint32 `json:"pools,omitempty"`
 	StepCap   int64    `json:"step_cap,omitempty"`
 	ClockBase int64    `json:"clock_base,omitempty"`
 }
 
 func (t *Tape) config() *simrt.Config {
-	return &simrt.Config{Gaps: t.Gaps, Picks: t.Picks, Edges: t.Edges, Perms: t.Perms, Clocks: t.Clocks,
+	simrt.ResetPools()
+	return &simrt.Config{Gaps: t.Gaps, Picks: t.Picks, Edges: t.Edges, Perms: t.Perms, Clocks: t.Clocks, Pools: t.Pools,
 		StepCap: t.StepCap, ClockBase: t.ClockBase, SpinSleep: spinSleep}
 }
 
@@ -73,6 +75,7 @@ type TapeParams struct {
 	NPerm    int
 	PermMix  int // 0 = all kinds, 1 = identity only, 2 = lexicographic enumeration handled by caller
 	NClock   int
+	NPool    int
 }
 
 func genTape(r *rng, p TapeParams) *Tape {
@@ -121,6 +124,14 @@ func genTape(r *rng, p TapeParams) *Tape {
 			t.Perms[i] = kind | param<<3
 		}
 	}
+	if p.NPool > 0 {
+		t.Pools = make([]uint32, p.NPool)
+		for i := range t.Pools {
+			if r.chance(1, 5) {
+				t.Pools[i] = 1
+			}
+		}
+	}
 	if p.NClock > 0 {
 		t.Clocks = make([]uint32, p.NClock)
 		for i := range t.Clocks {
@@ -156,6 +167,7 @@ func trimTape(t *Tape, s simrt.Stats) {
 	t.Edges = cut(t.Edges, s.EdgesUsed)
 	t.Perms = cut(t.Perms, s.PermsUsed)
 	t.Clocks = cut(t.Clocks, s.ClocksUsed)
+	t.Pools = cut(t.Pools, s.PoolsUsed)
 }
 
 // ---------------------------------------------------------------------------
